@@ -151,7 +151,15 @@ func exploreStall(p *Program) (*Violation, int, int) {
 		return v, e.execs, e.ntSeen
 	}
 	wsteps := e.lastOut.R.Steps[0]
-	bound := 4*rsteps + 64
+	// own-step bound of the reader: generous in the length of the longest possible bucket chain (chain
+	// buckets are never unlinked, so a miss may have to walk every bucket the prefix ever created),
+	// independent of anything the stalled writer does. Blocking or yielding is flagged at once by the
+	// decider; this bound only catches a reader that busy-loops without yielding.
+	fill := p.Fill
+	if p.effFill > fill {
+		fill = p.effFill
+	}
+	bound := 4*rsteps + 64 + len(p.Threads[1])*12*(fill+8)
 	e.opts.budget = 60*(rsteps+wsteps) + 20000
 	stats.Max("max_writer_points", int64(wsteps))
 	resizing := e.lastOut.Classes["resize-or-clear-completed"]
